@@ -51,6 +51,8 @@ FIXED = {
     "ZOmega division by an integer": ("C16", "ZOmega / int used float division (inexact above 2**53)"),
     "executor submit passes keyword": ("C65", "mp_pool submit(fn, *args, **kwargs) raised TypeError (kwargs passed to Pool.apply)"),
     "executor starmap fallback": ("C65", "starmap on cf_threadpool / cf_procpool: kwargs handed to list(), single-parameter functions called once with all items"),
+    "to_openqasm(measure_all=False) measures": ("C67", "to_openqasm(measure_all=False, wires=...) measured q[tape.wires.index(w)] instead of q[wires.index(w)]"),
+    "parameter-shift gradients of var(Sum": ("C34", "parameter-shift Jacobian of var(Sum / LinearCombination) ignored the d<A^2> term (wrong by ~2x)"),
     "IntegerComparator(geq=False) matrix": ("C10", "IntegerComparator(value > 2**n, geq=False).matrix() raised ValueError"),
 }
 
@@ -88,6 +90,9 @@ KNOWN = [
     ("C11", "emitted-type-not-declared", {"sig": "re:QROM:_qrom_decomposition.*"}, "adjoint(controlled(QROM rule)): nested Prod resources key Identity by representation vs class"),
     ("C11", "emitted-type-not-declared", {"sig": "re:generic:decompose_select_pauli_rot.*"}, "SelectPauliRot with all-zero angles emits a Prod without the declared RZ type"),
     ("C11", "emitted-type-not-declared", {"sig": "re:generic:flip_control_adjoint.*"}, "flip_control_adjoint on C(Adjoint(PhaseShift)) emits Adjoint(ControlledPhaseShift), not among the declared types"),
+    ("C67", "for-range-exclusive", {"for_range_exclusive": True}, "from_qasm3 runs `for i in [a:b]` without the end point b (OpenQASM 3 ranges are inclusive)"),
+    ("C67", "import-wires", {"decl": "indexed", "custom_gate": True}, "from_qasm3: a user-defined gate applied to indexed register qubits (q[0], q[1]) acts on wires named after the gate's formal parameters"),
+    ("C67", "unexpected-exception", {"where": "qasm_interpreter.py:_bind_quantum_parameter"}, "from_qasm3: a user-defined gate applied to indexed register qubits raises ValueError ('r0' is not in list) when nested in control flow"),
     ("C28", "kraus-channel", {"channel": "ThermalRelaxationError", "regime": "t2>t1,tg>4*t2"}, "ThermalRelaxationError Kraus operators are not trace preserving for T2 > T1 and tg >> T2 (stability epsilon dominates)"),
     ("C28", "result-shape", {"batch1_csr_obs": True}, "expval(LinearCombination / SparseHamiltonian) with a broadcast parameter of batch size one loses the batch axis (math.squeeze in csr_dot_products; default.qubit has the same squeeze)"),
     ("C28", "kraus-complete", {"channel": "ThermalRelaxationError", "regime": "t2>t1,tg>4*t2"}, "ThermalRelaxationError Kraus operators are not trace preserving for T2 > T1 and tg >> T2 (stability epsilon dominates)"),
